@@ -11,18 +11,18 @@ import sys
 import traceback
 
 
-def discover():
+def discover(pid):
+    """Find the driver that declares `pid` in its PROPERTIES tuple (only that module is imported,
+    so a problem in another driver cannot break this check)."""
+    import re
     import harness.drivers as pkg
 
-    table = {}
     for m in pkgutil.iter_modules(pkg.__path__):
         src = open(os.path.join(pkg.__path__[0], m.name + ".py")).read()
-        if "PROPERTIES" not in src:
-            continue
-        mod = importlib.import_module("harness.drivers." + m.name)
-        for pid in getattr(mod, "PROPERTIES", ()):
-            table[pid] = mod
-    return table
+        mm = re.search(r"(?m)^PROPERTIES\s*=\s*\(([^)]*)\)", src)
+        if mm and pid in re.findall(r"C\d+", mm.group(1)):
+            return importlib.import_module("harness.drivers." + m.name)
+    return None
 
 
 def main():
@@ -36,11 +36,11 @@ def main():
         if a.pid == "selftest":
             mod = importlib.import_module("harness.selftest")
             sys.exit(mod.run(a.tier, seed))
-        table = discover()
-        if a.pid not in table:
-            print("unknown property %s (have %s)" % (a.pid, sorted(table)))
+        mod = discover(a.pid)
+        if mod is None:
+            print("unknown property %s" % a.pid)
             sys.exit(2)
-        rc = table[a.pid].run(a.pid, a.tier, seed, replay=a.replay)
+        rc = mod.run(a.pid, a.tier, seed, replay=a.replay)
     except SystemExit:
         raise
     except Exception:  # noqa: BLE001  machinery failure, never a VIOLATION
